@@ -23,6 +23,7 @@ type Config struct {
 	Batch            int  // 0 stream, k>0: |window().periodCount(k).everyCount(k) before alert
 	All              bool // .all() (batch only)
 	Flap             bool // .flapping(0.25,0.5).history(4)
+	History          int  // .history(n) without flapping (0 = default 21)
 }
 
 const scoInterval = 2500 * time.Millisecond
@@ -87,6 +88,9 @@ func (c Config) script() string {
 	}
 	if c.Flap {
 		sb.WriteString(".flapping(0.25, 0.5).history(4)")
+	}
+	if c.History > 0 {
+		fmt.Fprintf(&sb, ".history(%d)", c.History)
 	}
 	sb.WriteString("|log().prefix('A')")
 	return sb.String()
@@ -648,6 +652,14 @@ func configs(thorough bool) []Config {
 			}
 		}
 	}
+	// small history rings without flapping (the ring index arithmetic is shared by all configurations)
+	for _, hist := range []int{2, 3} {
+		for sco := 0; sco <= 1; sco++ {
+			for _, batch := range []int{0, 2} {
+				r = append(r, Config{Info: true, Warn: true, Crit: true, Thresholds: true, SCO: sco, Batch: batch, History: hist})
+			}
+		}
+	}
 	// flapping
 	for sco := 0; sco <= 1; sco++ {
 		for _, batch := range []int{0, 2} {
@@ -716,7 +728,6 @@ func TestCheck(t *testing.T) {
 		gs, err := runChunk(t, c.Cfg, []Case{c}, r)
 		if err != nil {
 			r.Violation("run-error", err.Error(), c)
-			return
 		}
 		for _, p := range gs[0].probs {
 			r.Violation(key(c.Cfg, p.kind), p.msg, c)
@@ -738,8 +749,8 @@ func TestCheck(t *testing.T) {
 		syms := cfg.alphabet()
 		skip := false
 		b := budget
-		if cfg.Flap {
-			b = budget * 20 // 5^7 sequences: the flapping history (4) must fill and drain
+		if cfg.Flap || cfg.History > 0 {
+			b = budget * 20 // 5^7 sequences: the history ring must wrap several times
 		}
 		L := seqLen(len(syms), b)
 		if cfg.Batch > 0 {
